@@ -561,3 +561,15 @@ Proof.
   - unfold wf_wits. split; [reflexivity|].
     repeat constructor.
 Qed.
+
+(* the hypotheses of reader_sound are inhabited by an input that is NOT of the form [serialize t]:
+   a segwit encoding followed by a trailing byte *)
+Lemma sample_reader_sound_hyps :
+  let raw := serialize_segwit sample_tx 1 sample_wits ++ [byte_of_N 9] in
+  let p := lift_with 1 (concat sample_wits) sample_tx in
+  N.of_nat (length raw) < MAXSIZE1 /\ deserialize raw = ROk p /\ p_ins p <> [] /\
+  pser p = ROk (serialize sample_tx) /\ raw <> serialize sample_tx.
+Proof.
+  cbv zeta. split; [vm_compute; reflexivity|]. split; [vm_compute; reflexivity|].
+  split; [discriminate|]. split; [vm_compute; reflexivity|]. vm_compute. discriminate.
+Qed.
